@@ -1,0 +1,26 @@
+//go:build verif
+
+package renderer
+
+import (
+	"github.com/golang/geo/r2"
+)
+
+// Exports of the unexported line simplification functions for the
+// model-based verification harness (/verif, property C34). Only compiled
+// with the build tag "verif".
+
+// VerifDistance is distance().
+func VerifDistance(a r2.Point, b r2.Point, p r2.Point) float64 {
+	return distance(a, b, p)
+}
+
+// VerifReferenceDouglasPeuckerSimplify is referenceDouglasPeuckerSimplify().
+func VerifReferenceDouglasPeuckerSimplify(points []r2.Point, epsilon float64) []r2.Point {
+	return referenceDouglasPeuckerSimplify(points, epsilon)
+}
+
+// VerifDouglasPeuckerSimplify is douglasPeuckerSimplify().
+func VerifDouglasPeuckerSimplify(points []r2.Point, epsilon float64) []r2.Point {
+	return douglasPeuckerSimplify(points, epsilon)
+}
